@@ -24,7 +24,14 @@ def fold(e, env: Optional[Dict[str, object]] = None, p: Optional[Project] = None
             return env[e.id]
         if p is not None and modname is not None and p.has_binding(modname, e.id):
             v = p.resolve(modname, e.id)
-            return v if _ok(v) else UNK
+            if _ok(v):
+                return v
+            # a module-level name bound once to a foldable expression (concatenation / join of other constants)
+            binds = [payload for bname, kind, payload in p.modules[modname].bindings if bname == e.id and kind == "assign"]
+            depth = env.get("__depth__", 0) if isinstance(env, dict) else 0
+            if len(binds) == 1 and isinstance(binds[0], ast.AST) and depth < 8:
+                return fold(binds[0], {"__depth__": depth + 1}, p, modname)
+            return UNK
         return UNK
     if isinstance(e, (ast.Tuple, ast.List)):
         out = []
@@ -97,6 +104,12 @@ def fold(e, env: Optional[Dict[str, object]] = None, p: Optional[Project] = None
         if isinstance(e.func, ast.Name) and e.func.id == "str" and len(e.args) == 1:
             v = fold(e.args[0], env, p, modname)
             return str(v) if isinstance(v, (str, int)) and not isinstance(v, bool) else UNK
+        if isinstance(e.func, ast.Attribute) and e.func.attr == "join" and len(e.args) == 1 and not e.keywords:
+            sep = fold(e.func.value, env, p, modname)
+            parts = fold(e.args[0], env, p, modname)
+            if isinstance(sep, str) and isinstance(parts, (tuple, list)) and all(isinstance(x, str) for x in parts):
+                return sep.join(parts)
+            return UNK
         if isinstance(e.func, ast.Attribute) and e.func.attr in _STR_METHODS and not e.keywords:
             base = fold(e.func.value, env, p, modname)
             args = [fold(a, env, p, modname) for a in e.args]
